@@ -7,6 +7,10 @@
 //                     mutations over byte classes, truncation at every length, tails) against an independent W3C parser,
 //                     three-valued oracle (must-accept / must-reject / don't-care), two caller contexts.
 //  part 2  extract  : valid traceparent with mutated tracestate headers: the traceparent result never depends on them.
+//  part 3  helpers  : the public static TraceIdFromHex / SpanIdFromHex / TraceFlagsFromHex on exact-size heap blocks of every
+//                     length 0..2N+2 (odd, short, over-long) with every single-position deviation over hex / non-hex byte
+//                     classes: never a crash or an out-of-bounds access; all-hex input that fits decodes to the left-padded value.
+//  Carriers: on the unmutated layer every absent header is also answered with a default-constructed (null data) view.
 #include <opentelemetry/trace/propagation/http_trace_context.h>
 
 #include "c09_propagation_common.h"
@@ -255,8 +259,12 @@ void run_extract(vf::Ctx &c) {
   int caller = nm <= 1 ? c.pick("caller", 2) : 1;
   int tsv = nm <= 1 ? c.pick("tracestate", 2) : 0;
   bool tp_absent = (in.empty() && c.flip("traceparent-absent"));
+  // a carrier may answer an absent key with a default-constructed view (data() == nullptr) rather than with ""
+  bool null_absent = nm == 0 && (tp_absent || !tsv) && c.flip("absent-header-is-null-view");
 
   MapCarrier car;
+  car.absent_null = null_absent;
+  if (null_absent) { c.counted("absent_header_null_view"); desc += " absent=null-view"; }
   if (!tp_absent) car.put(kTP, in);
   if (tsv) car.put(kTS, "congo=t61rcWkgMzE,rojo=00f067aa0ba902b7");
   HttpTraceContext prop;
@@ -311,6 +319,8 @@ void run_tracestate(vf::Ctx &c) {
   int tpi = c.pick("traceparent", 3);
   bool ts_absent = (in.empty() && c.flip("tracestate-absent"));
   MapCarrier car;
+  car.absent_null = ts_absent && c.flip("absent-header-is-null-view");
+  if (car.absent_null) desc += " absent=null-view";
   car.put(kTP, tps[tpi]);
   if (!ts_absent) car.put(kTS, in);
   HttpTraceContext prop;
@@ -336,6 +346,53 @@ void run_tracestate(vf::Ctx &c) {
   if (in.size() < 50) c.sample("Extract(valid traceparent, tracestate " + shown + ") => " + e.canon());
 }
 
+// ---- part 3: the public *FromHex helpers -------------------------------------------------------------------------
+// Extract only ever hands them exact-length, pre-validated fields; as public static members they can be called with
+// anything.  Demanded: no crash, no access outside the view (exact-size heap block, an empty view has no readable byte)
+// or outside the helper's own buffer (ASan).  For input made of hex digits only that fits (length <= 2N) the result is
+// the value left-padded with zeroes (detail/hex.h: "Smaller hex strings are left padded with zeroes"); what non-hex or
+// over-long input decodes to is don't-care.
+void run_fromhex(vf::Ctx &c) {
+  static const std::string classes = std::string("0f9Aa", 5) + std::string("g \x80", 3) + std::string(1, '\0') + "-";  // 5 hex, 5 non-hex
+  static const std::string digits = "123456789abcdef0fedcba9876543210123456";  // position-distinguishable base
+  int helper = c.pick("helper", 3);  // 0 trace id (N=16), 1 span id (N=8), 2 flags (N=1)
+  const size_t N = helper == 0 ? 16 : helper == 1 ? 8 : 1;
+  size_t len = (size_t)c.pick("length", (int)(2 * N + 3));  // 0 .. 2N+2
+  std::string in = digits.substr(0, len);
+  std::string desc = vf::sfmt("%zu digits", len);
+  if (len > 0 && c.flip("deviate")) {
+    size_t pos = (size_t)c.pick("pos", (int)len);
+    char ch = classes[c.pick("class", (int)classes.size())];
+    in[pos] = ch;
+    desc += vf::sfmt(", byte %zu = %s", pos, show_byte(ch).c_str());
+  } else if (len > 0 && c.flip("uniform")) {
+    char ch = classes[c.pick("class", (int)classes.size())];
+    in.assign(len, ch);
+    desc += ", all " + show_byte(ch);
+  }
+  static const char *const names[3] = {"TraceIdFromHex", "SpanIdFromHex", "TraceFlagsFromHex"};
+  bool null_view = len == 0 && c.flip("null-view");
+  Block blk(in);
+  nostd::string_view view = null_view ? nostd::string_view() : blk.view();
+  c.stage(names[helper]);
+  std::string got;
+  if (helper == 0) { trace::TraceId id = HttpTraceContext::TraceIdFromHex(view); got = hex_lower(id.Id().data(), 16); }
+  else if (helper == 1) { trace::SpanId id = HttpTraceContext::SpanIdFromHex(view); got = hex_lower(id.Id().data(), 8); }
+  else { uint8_t f = HttpTraceContext::TraceFlagsFromHex(view).flags(); got = hex_lower(&f, 1); }
+  c.step();
+  std::string shown = std::string(names[helper]) + "('" + vfq::printable(in, 60) + "') [" + desc + (null_view ? ", default-constructed view" : "") + "]";
+  if (all_xhex(in) && len <= 2 * N) {
+    std::string want = std::string(2 * N - len, '0') + fold_hex(in);
+    c.counted("fromhex_must_decode");
+    VFP_CHECK(c, got == want, len == 2 * N ? "C09:fromhex:value" : "C09:fromhex:value:short-input", shown + " = " + got + ", expected the left-padded value " + want);
+  } else {
+    c.counted(len > 2 * N ? "fromhex_dontcare_overlong" : "fromhex_dontcare_nonhex");
+  }
+  c.state(vf::sfmt("fromhex|%d|", helper) + got);
+  c.outcome(vf::sfmt("fromhex|%d|%zu|", helper, len) + got);
+  if (len != 2 * N) c.sample(shown + " = " + got);
+}
+
 void setup(vf::Options &o) {
   o.split_depth = 2;
   o.deadline_s = o.thorough ? 900 : 100;
@@ -344,10 +401,11 @@ void setup(vf::Options &o) {
 
 void run(vf::Ctx &c) {
   static const int only = atoi(c.opt().get("part", "-1").c_str());  // development aid: --part=N runs one part
-  switch (only >= 0 ? only : c.pick("part", 3)) {
+  switch (only >= 0 ? only : c.pick("part", 4)) {
     case 0: run_inject(c); break;
     case 1: run_extract(c); break;
-    default: run_tracestate(c); break;
+    case 2: run_tracestate(c); break;
+    default: run_fromhex(c); break;
   }
 }
 
